@@ -149,6 +149,27 @@ bool splinetable<Alloc>::read_fits_mem(void* buffer, size_t buffer_size){
 			fits_report_error(stderr, error);
 		}
 	} cleanup(fits);
+	
+	//CFITSIO's memory driver trusts the sizes declared in the headers and will
+	//read past the end of a buffer which is shorter than they claim. Make sure
+	//that every HDU lies entirely inside the buffer before touching any data.
+	if (buffer_size % 2880 != 0)
+		throw std::runtime_error("Memory 'file' is truncated: size is not a multiple of the FITS block size");
+	for (int hdu = 1; ; hdu++) {
+		int type;
+		LONGLONG headstart, datastart, dataend;
+		fits_movabs_hdu(fits, hdu, &type, &error);
+		if (error == END_OF_FILE) { //no more HDUs
+			error = 0;
+			fits_clear_errmsg();
+			break;
+		}
+		fits_get_hduaddrll(fits, &headstart, &datastart, &dataend, &error);
+		if (error != 0)
+			throw std::runtime_error("Unable to examine HDU "+std::to_string(hdu)+" of memory 'file': Error "+std::to_string(error));
+		if (dataend < 0 || (unsigned long long)dataend > buffer_size)
+			throw std::runtime_error("Memory 'file' is truncated: HDU "+std::to_string(hdu)+" extends beyond the end of the buffer");
+	}
 	return(read_fits_core(fits, "memory 'file'"));
 }
 	
